@@ -367,3 +367,148 @@ def rule_wassoc(prog):
             obs.append(ok('WASSOC', key, 'right = left + 1 iff associativity == LEFT, right = left - 1 iff == RIGHT; nothing else decides the direction', b.where()))
     obs.append(floor('WASSOC', 'binding-power-functions', n, 1, 'associativity must be turned into binding powers somewhere'))
     return obs
+
+
+# ----------------------------------------------------------------------------- "no extra gating"
+
+def gates_of(body, target_bb):
+    """switch blocks one of whose edges edge-dominates target_bb: [(switch bb, kind, detail)]
+    kind: 'try' (discriminant of a Try::branch result), 'option' (discriminant of an Option/Result
+    local), 'pred' (bool result of a call; detail = Call), 'cmp' (primitive comparison), 'flag'
+    (constant bool flag), 'enum' (discriminant of some other enum; detail = type), 'other'"""
+    from r_panic import bool_source
+    from r_parse import flag_source
+    out = []
+    du = defuse(body)
+    for sb in sorted(body.live_blocks):
+        t = body.blocks[sb]['term']
+        if t['k'] != 'switch':
+            continue
+        succs = {x for v, x in switch_edges(body, sb)}
+        live_succs = {x for x in succs if body.blocks[x]['term']['k'] != 'unreachable'}
+        if len(live_succs) < 2:
+            continue
+        if not any(edge_dominates(body, sb, x, target_bb) for x in live_succs):
+            continue
+        l = op_local(t['discr'])
+        defs = du.defs.get(l, []) if l is not None else []
+        if len(defs) == 1 and defs[0][2] == 'assign' and defs[0][3]['k'] == 'discr':
+            pl = defs[0][3]['pl']
+            o = single_origin(trace_local(body, pl['l'], ()))
+            ty = pl['ty']
+            if o is not None and o.kind == 'callres' and o.data.callee == 'std::ops::Try::branch':
+                out.append((sb, 'try', o.data))
+            elif ty.startswith('std::option::Option<') or ty.startswith('std::result::Result<'):
+                out.append((sb, 'option', o))
+            else:
+                out.append((sb, 'enum', ty))
+            continue
+        src = bool_source(body, t['discr'])
+        if src is not None:
+            out.append((sb, 'pred', src[0]))
+            continue
+        if flag_source(body, t['discr']) is not None:
+            out.append((sb, 'flag', None))
+            continue
+        ci = _cmp_of_switch(body, sb)
+        if ci:
+            out.append((sb, 'cmp', ci))
+            continue
+        # direct switch on a place (e.g. a char or a discriminant read inline)
+        out.append((sb, 'other', t.get('dty')))
+    return out
+
+
+def _reaches_registry(prog, uid):
+    from analysis import LOCK_CALLS, guard_class
+    for bid in prog.reach([uid]):
+        for c in prog.by_id[bid].live_calls:
+            if c.callee in LOCK_CALLS and guard_class(c.term['dest']['ty']) == 'REGISTRY':
+                return True
+    return False
+
+
+def rule_wpostfix(roles):
+    """(1) the operand of a prefix operator is parsed by the body that attaches postfix operators
+    (postfix binds tighter than prefix); (2) whether a postfix operator is attached depends only on
+    the current token being a registered postfix operator — not on what kind of primary preceded it
+    (so `(x)++` and `x++` agree)"""
+    prog = roles.prog
+    obs = []
+    post = builders(roles, 'Postfix')
+    post_ids = {b.id for b, bb, rv in post}
+    obs.append(floor('WPOSTFIX', 'postfix-builder', len(post), 1, 'postfix operators are attached somewhere'))
+    # tail-forwarders of the postfix builder
+    fam = set(post_ids)
+    changed = True
+    while changed:
+        changed = False
+        for b in roles.parse_bodies:
+            if b.id in fam:
+                continue
+            tails = [c for c in b.live_calls if c.ruid in fam and c.dest['l'] == 0 and not c.dest['p']]
+            if tails and len([c for c in b.live_calls if c.ruid in {p.id for p in roles.parse_bodies}]) == len(tails):
+                fam.add(b.id); changed = True
+    for b, bb, rv in builders(roles, 'Unary'):
+        key = 'WPOSTFIX|prefix-operand|%s' % b.name
+        o = single_origin(trace_operand(b, rv['ops'][1], through_calls=set(TRANSPARENT_CALLS)))
+        while o is not None and o.kind == 'callres' and (o.data.callee or '').endswith('Box::<T>::new'):
+            o = single_origin(trace_operand(b, o.data.args[0], through_calls=set(TRANSPARENT_CALLS)))
+        if o is not None and o.kind == 'callres' and o.data.ruid in fam:
+            obs.append(ok('WPOSTFIX', key, 'the prefix operand is parsed by the postfix-attaching body: `-x++` is -(x++)', b.where(bb)))
+        else:
+            obs.append(bad('WPOSTFIX', key, 'the operand of a prefix operator is not parsed by the body that attaches postfix operators (%r): a postfix operator then applies to the whole prefix expression, `-x++` becomes (-x)++' % o, b.where(bb), body=b.name, bb=bb))
+    for b, bb, rv in post:
+        key = 'WPOSTFIX|gate|%s' % b.name
+        extra = []
+        n_pred = 0
+        for sb, kind, detail in gates_of(b, bb):
+            if kind == 'try':
+                continue
+            if kind == 'pred' and detail.ruid is not None and _reaches_registry(prog, detail.ruid):
+                n_pred += 1
+                continue
+            extra.append('bb%d: %s %s' % (sb, kind, (detail.rdef or detail.callee) if kind == 'pred' else (detail if isinstance(detail, str) else '')))
+        if extra:
+            obs.append(bad('WPOSTFIX', key, 'attaching a postfix operator also depends on %s: what precedes the operator (e.g. a parenthesised operand) changes the parse' % '; '.join(extra), b.where(bb), body=b.name, bb=bb))
+        elif n_pred == 0:
+            obs.append(bad('WPOSTFIX', key, 'a Postfix node is built without testing that the current token is a registered postfix operator', b.where(bb), body=b.name, bb=bb))
+        else:
+            obs.append(ok('WPOSTFIX', key, 'a postfix operator is attached iff the current token is a registered postfix operator; nothing else gates it', b.where(bb)))
+    return obs
+
+
+def rule_munch(roles, tm):
+    """symbolic-operator scanner: the run is extended exactly while the longer slice is a registered
+    operator (longest registered operator wins); no other condition cuts the run short"""
+    prog = roles.prog
+    obs = []
+    n = 0
+    for bid in sorted(roles.reach):
+        b = prog.by_id[bid]
+        if not any(rv['k'] == 'agg' and rv.get('adt') == roles.token_adt and rv.get('variant') == 'Operator' for bb, i, pl, rv in b.assigns()):
+            continue
+        advs = [c for c in b.live_calls if c.ruid in tm.char_adv and any(c.bb in s for s in b.sccs())]
+        regpreds = [c for c in b.live_calls if c.ruid is not None and prog.by_id[c.ruid].locals[0]['ty'] == 'bool' and _reaches_registry(prog, c.ruid)]
+        if not advs or not regpreds:
+            continue
+        n += 1
+        for k, a in enumerate(advs):
+            key = 'MUNCH|%s|#%d' % (b.name, k)
+            extra = []
+            has_reg = False
+            for sb, kind, detail in gates_of(b, a.bb):
+                if kind in ('try', 'option'):
+                    continue
+                if kind == 'pred' and detail.ruid is not None and _reaches_registry(prog, detail.ruid):
+                    has_reg = True
+                    continue
+                extra.append('bb%d: %s %s' % (sb, kind, (detail.rdef or detail.callee) if kind == 'pred' else (detail if isinstance(detail, str) else '')))
+            if extra:
+                obs.append(bad('MUNCH', key, 'extending a symbolic operator also depends on %s: a registered operator containing such a character is split (not the longest registered operator)' % '; '.join(extra), a.where(), body=b.name, bb=a.bb))
+            elif not has_reg:
+                obs.append(bad('MUNCH', key, 'the symbolic-operator run is extended without consulting the operator registry', a.where(), body=b.name, bb=a.bb))
+            else:
+                obs.append(ok('MUNCH', key, 'the run is extended iff the longer slice is a registered operator (and input remains)', a.where()))
+    obs.append(floor('MUNCH', 'symbolic-scanners', n, 1, 'symbolic operators are scanned by maximal munch against the registry'))
+    return obs
